@@ -133,7 +133,20 @@ def _guarded_lap(eps):
             "q0": "s", "F": ["f"], "eps": eps}
 
 
-TEMPLATES = [_guarded_lap, _anbn, _pal, _nonempty_stack, _replace, _diamond, _replace_only, _counter_and_sink, _drain_dead_ends]
+def _multi_push(k):
+    # a^i b^j with i >= 1 and 1 <= j <= k*i: every a pushes k symbols (k-1 of them by eps-moves), every b pops one, acceptance by final state with
+    # symbols left on the stack: the stack is much higher than the word is long
+    def build(eps):
+        Q = ["q0"] + ["p%d" % i for i in range(1, k)] + ["q2"]
+        d = [["q0", "a", eps, Q[1] if k > 1 else "q0", "x"]]
+        for i in range(1, k):
+            d.append([Q[i], eps, eps, Q[i + 1] if i + 1 < k else "q0", "x"])
+        d += [["q0", "b", "x", "q2", eps], ["q2", "b", "x", "q2", eps]]
+        return {"Q": Q, "S": ["a", "b"], "G": ["x"], "d": d, "q0": "q0", "F": ["q2"], "eps": eps}
+    return build
+
+
+TEMPLATES = [_multi_push(2), _multi_push(3), _multi_push(4), _guarded_lap, _anbn, _pal, _nonempty_stack, _replace, _diamond, _replace_only, _counter_and_sink, _drain_dead_ends]
 def _ambiguous_stacks2(eps):
     # the stacks [XY] (after a) and [X, Y] (after b) in the same state spell the same text; a continues only from the first, b only from the second: {aa, bb}
     return {"Q": ["q0", "p", "q1", "g", "f"], "S": ["a", "b"], "G": ["X", "Y", "XY"],
